@@ -26,7 +26,11 @@ SLICES = {
 QUICK = {"C01": ["cancel", "timeout0", "crash", "kill", "init"], "C02": ["crash", "crash2", "init", "unload"],
          "C03": ["cancel", "timeout0"], "C04": ["badarg", "unload"], "C05": ["timeout0", "cancel"], "C06": ["kill"], "C20": ["huge"],
          "C07": ["timeout0"], "C08": ["timeout0", "unload"]}
-THOROUGH_EXTRA = ["timeout1", "timeout2", "del", "taskcrash", "crash_tmo", "mix3", "big", "unload", "badarg"]
+# further slices of the thorough tier, per property (each is 1.7-14 M states, 1-8 minutes on 16 cores)
+THOROUGH_EXTRA = {"C01": ["timeout1", "del", "taskcrash", "crash_tmo", "mix3", "big", "unload", "badarg", "huge", "crash2"],
+                  "C02": ["taskcrash", "crash_tmo", "big", "unload"], "C03": ["timeout1", "mix3"], "C04": ["mix3", "big"],
+                  "C05": ["timeout1", "del"], "C06": ["huge", "badarg"], "C07": ["timeout1", "timeout2", "crash_tmo"],
+                  "C08": ["timeout1", "mix3"], "C20": ["kill", "del"]}
 INVS = ["AtMostOnce", "CancelMeansNeverRun", "RightFuture", "SlotConservation", "BoundedParallelism", "BrokenTotal",
         "TimeoutNeverBreaks", "CleanHandshakeOnly", "NoTimeoutWhileHolding"]
 # behaviour of the code as it is now (flipped by fix: commits); D17 = CancelWakes
@@ -61,7 +65,7 @@ def run_slices(ctx, prop):
     code is either the reproduction of a known finding (D17 on slice 'cancel') or a machinery failure."""
     names = list(QUICK.get(prop, []))
     if ctx.tier == "thorough":
-        names += [n for n in THOROUGH_EXTRA if n not in names]
+        names += [n for n in THOROUGH_EXTRA.get(prop, []) if n not in names]
     tlc.sany(ctx.work, "MC_LokyExecutor")
     d17 = None
     for n in names:
@@ -174,7 +178,7 @@ def guided_cases(ctx, prop, per_slice, d17=None):
         d17cases = []
     names = list(QUICK.get(prop, []))
     if ctx.tier == "thorough":
-        names += [n for n in THOROUGH_EXTRA if n not in names]
+        names += [n for n in THOROUGH_EXTRA.get(prop, []) if n not in names]
     cases = []
     for n in names:
         cfg = write_cfg(ctx.work, n, invariants=[], spec="SpecF", symmetry=False)
@@ -188,7 +192,7 @@ def guided_cases(ctx, prop, per_slice, d17=None):
 
 # --------------------------------------------------------------------------------------------------------------
 # Reusable.tla: the singleton, its lock and _resize at the design level (C09, C10, C07 clause "resizes")
-RSLICES = {  # name: (Size, MaxTimeout, HasTimeout, CallbackSubmits, UserShutdown, invariants, expected violation)
+RSLICES = {  # name: (Size, MaxTimeout, HasTimeout, CallbackSubmits, UserShutdown, invariants, expected violation[, MaxCrash, RecheckAfterWait override])
     "grow":    ("Sz12", 1, "TRUE", "FALSE", "FALSE", ["IdsGrow", "NeverBroken"], None),
     "shrink":  ("Sz21", 1, "TRUE", "FALSE", "FALSE", ["IdsGrow", "NeverBroken"], None),
     "tmo2":    ("Sz12", 2, "TRUE", "FALSE", "FALSE", ["IdsGrow", "NeverBroken"], None),
@@ -196,6 +200,10 @@ RSLICES = {  # name: (Size, MaxTimeout, HasTimeout, CallbackSubmits, UserShutdow
     "stop":    ("Sz12", 0, "FALSE", "FALSE", "TRUE", ["IdsGrow"], None),
     "cb_reach":   ("Sz21", 0, "FALSE", "TRUE", "FALSE", ["NoD6"], "NoD6"),
     "stop_reach": ("Sz12", 0, "FALSE", "FALSE", "TRUE", ["NoD18"], "NoD18"),
+    # a worker dies at any moment, also while _resize waits for the jobs (D24)
+    "crash":       ("Sz12", 0, "FALSE", "FALSE", "FALSE", ["IdsGrow", "@ReturnsUsable"], None, 1, None),
+    "crash_shrink": ("Sz21", 1, "TRUE", "FALSE", "FALSE", ["IdsGrow", "@ReturnsUsable"], None, 1, None),
+    "crash_d24":   ("Sz12", 0, "FALSE", "FALSE", "FALSE", ["@ReturnsUsable"], "ReturnsUsable", 1, "FALSE"),
 }
 
 
@@ -203,18 +211,24 @@ def run_reusable_slices(ctx):
     sw = json.load(open(os.path.join(tlc.SPECS, "code_switches.json")))
     under = sw.get("SpawnUnderLock", "TRUE")
     tlc.sany(ctx.work, "MC_Reusable")
-    for name, (size, mt, hast, cb, us, invs, expect) in RSLICES.items():
+    recheck_code = sw.get("RecheckAfterWait", "TRUE")
+    for name, spec in RSLICES.items():
+        size, mt, hast, cb, us, invs, expect = spec[:7]
+        maxcrash = spec[7] if len(spec) > 7 else 0
+        recheck = (spec[8] if len(spec) > 8 and spec[8] else recheck_code)
         fn = "MC_Reusable_gen_%s.cfg" % name
         with open(os.path.join(ctx.work, fn), "w") as fh:
             fh.write("SPECIFICATION SpecF\nCONSTANTS\n  Callers = {\"c1\", \"c2\"}\n  Size <- %s\n  Pids = {\"p1\", \"p2\", \"p3\", \"p4\"}\n"
-                     "  MaxTimeout = %d\n  HasTimeout = %s\n  CallbackSubmits = %s\n  UserShutdown = %s\n  SpawnUnderLock = %s\n%s\n" % (
-                         size, mt, hast, cb, us, under, "\n".join("INVARIANT " + i for i in invs)))
+                     "  MaxTimeout = %d\n  HasTimeout = %s\n  CallbackSubmits = %s\n  UserShutdown = %s\n  SpawnUnderLock = %s\n  MaxCrash = %d\n"
+                     "  RecheckAfterWait = %s\n%s\n" % (
+                         size, mt, hast, cb, us, under, maxcrash, recheck,
+                         "\n".join(("PROPERTY " + i[1:]) if i.startswith("@") else ("INVARIANT " + i) for i in invs)))
         res = tlc.check(ctx.work, "MC_Reusable", fn, workers=8, timeout=900, coverage=False)
         ctx.add_tlc(res, "Reusable.tla slice %s (SpawnUnderLock=%s)" % (name, under))
         if expect:
             if not (res.violation and res.violation[1] == expect):
                 ctx.notes.append("Reusable.tla: the window %s is not reachable in slice %s (exemption vacuous)" % (expect, name))
             else:
-                ctx.extra.setdefault("reusable_open_windows_reached", []).append(expect[2:])
+                ctx.extra.setdefault("reusable_open_windows_reached", []).append(expect[2:] if expect.startswith("No") else expect + " (switch off)")
         elif res.violation:
             raise runner.Machinery("Reusable.tla slice %s: TLC reports %s (spec-level): %s" % (name, res.violation, repr(res.trace[-1][1])[:1200] if res.trace else ""))
